@@ -15,6 +15,7 @@ import (
 	"crypto/sha256"
 	"fmt"
 	"go/ast"
+	"go/parser"
 	"go/printer"
 	"go/token"
 	"strconv"
@@ -48,10 +49,9 @@ var c15Sections = []c15Sec{
 	{"leveldb", "datastore/leveldb", "config.go", "jsonConfig", "Config", "applyJSONConfig", "toJSONConfig", []string{"Default"}, "envConfigKey"},
 }
 
-// defaults of custom members (their Config representation is chosen by the hand transcription)
-var c15CustomDefaults = map[string]string{
-	"crdt.trusted_peers": `VL ["*"]`, // Default(): TrustAll = true, TrustedPeers = []
-}
+// defaults of custom members whose rule configcustoms.go does not translate (their Config representation is chosen by
+// the hand transcription). crdt.trusted_peers is translated: its default is computed from Default() (TrustAll, TrustedPeers).
+var c15CustomDefaults = map[string]string{}
 
 // library constructors whose result is a default block: module, file, function
 var c15ExtDefaults = map[string][3]string{
@@ -95,6 +95,20 @@ func c15Load(path string) (*c15File, error) {
 	if err != nil {
 		return nil, err
 	}
+	return c15FromAST(fset, f), nil
+}
+
+// a file given as text (self-tests)
+func c15LoadSrc(src string) (*c15File, error) {
+	fset := token.NewFileSet()
+	f, err := parser.ParseFile(fset, "snippet.go", src, parser.ParseComments)
+	if err != nil {
+		return nil, err
+	}
+	return c15FromAST(fset, f), nil
+}
+
+func c15FromAST(fset *token.FileSet, f *ast.File) *c15File {
 	cf := &c15File{fset: fset, f: f, structs: map[string]*ast.StructType{}, funcs: map[string]*ast.FuncDecl{},
 		values: map[string]ast.Expr{}, iota: map[string]int{}, zeroVar: map[string]bool{}}
 	for _, d := range f.Decls {
@@ -137,7 +151,7 @@ func c15Load(path string) (*c15File, error) {
 			cf.funcs[key] = d
 		}
 	}
-	return cf, nil
+	return cf
 }
 
 func c15TypeName(e ast.Expr) string {
